@@ -22,6 +22,7 @@ func init() {
 			{ID: "C09.2", Desc: "agreements: keyer, normaliser, heuristic table, codec", Run: ruleC09_2, MinSites: 4},
 			{ID: "C09.3", Desc: "file name is a pure function of the key", Run: ruleC09_3, MinSites: 1},
 			{ID: "C09.4", Desc: "the id looked up is the id stored", Run: ruleC09_4, MinSites: 2},
+			{ID: "C09.6", Desc: "values written to the JSON index survive the encoding (else the variant is never selected again)", Run: func(c *Ctx) { ruleIndexValuesUTF8Safe(c, "C09.6") }, MinSites: 1},
 			{ID: "C09.5", Desc: "synthesised Date is valid UTC (a wrong Date makes fresh entries look stale)", Run: func(c *Ctx) { ruleDateRepair(c, "C09.5") }, MinSites: 1},
 		},
 	})
@@ -198,7 +199,7 @@ func ruleC09_2(c *Ctx) {
 	// heuristic table agreement is C06.4's; restated here as a structural fact
 	if heur, cs, ff := c.A.F("heurStatus"), c.A.F("canStore"), c.A.F("freshness"); heur != nil && cs != nil && ff != nil {
 		uses := func(fn *ssa.Function) bool {
-			return callsWhere(fn, func(cc *ssa.CallCommon) bool { return cc.StaticCallee() == heur })
+			return c.P.StaticTree(fn)[heur] // directly or through a helper
 		}
 		if uses(cs) && uses(ff) {
 			c.Pass("C09.2", "heuristic-table-agreement", "storability and heuristic lifetime consult the same status table", c.P.ShortName(heur))
